@@ -6,7 +6,9 @@ Proofs/Gaussian.lean).
 `generateDraws` models `Database.generate_draws` (dispatch native → user → error, shape test,
 stack, moveaxis), `drawId` the numbering of `IdManager.prepare`, `monteCarlo` the engine's
 Monte-Carlo loop with `bioDraws` reading `table[obs][r][drawId]` (engine modelled, not verified),
-`diffBeta`/`diffVar` the derivative operator on the formula family of this property.  The Gaussian
+`diffBeta`/`diffVar` the derivative operator on the formula family of this property, `allLiterals` /
+`literalIndex` the global numbering of `IdManager.prepare` and the index written by
+`Derive.get_signature`, `diffLit` / `deriveNamed` the engine's derivative w.r.t. a literal id.  The Gaussian
 closed forms are the oracle family against which the numerical-integration operator is compared
 (its quadrature error for general integrands is not proved: PARTIAL).
 -/
@@ -197,6 +199,105 @@ theorem derive_var_is_diff (betas row : List ℝ) (xi : String → ℝ) (j : ℕ
     HasDerivAt (fun t => evalI betas (row.set j t) xi e)
       (evalI betas (row.set j t) xi (diffVar j e)) t :=
   diffVar_correct betas row xi j hj e t
+
+/-- **`Derive(MonteCarlo(e), x)` denotes the partial derivative of the simulated quantity**
+(elasticity of a mixture): the Monte-Carlo mean of the symbolic derivative is the derivative of the
+Monte-Carlo mean as a function of data column `j` -/
+theorem derive_mc_var_is_diff (declared : List String) (table : List (List (List ℝ)))
+    (betas row : List ℝ) (n R j : ℕ) (hj : j < row.length) (e : IExpr) (t : ℝ) :
+    HasDerivAt (fun t => monteCarlo declared table betas (row.set j t) n R e)
+      (monteCarlo declared table betas (row.set j t) n R (diffVar j e)) t :=
+  monteCarlo_diffVar declared table betas row n R j hj e t
+
+/-- the same w.r.t. a parameter -/
+theorem derive_mc_is_diff (declared : List String) (table : List (List (List ℝ)))
+    (betas row : List ℝ) (n R i : ℕ) (hi : i < betas.length) (e : IExpr) (t : ℝ) :
+    HasDerivAt (fun t => monteCarlo declared table (betas.set i t) row n R e)
+      (monteCarlo declared table (betas.set i t) row n R (diffBeta i e)) t :=
+  monteCarlo_diffBeta declared table betas row n R i hi e t
+
+/-- **the index `Derive.get_signature` sends to the engine denotes the named literal and no other**:
+in the global numbering (free parameters, fixed parameters, random variables, draw variables,
+database columns) the entry at `literalIndex name` is `name`, and a literal with the same index has
+the same name. -/
+theorem derive_index_names_literal (free fixed rvs draws cols : List String) (name : String)
+    (h : name ∈ allLiterals free fixed rvs draws cols) :
+    (allLiterals free fixed rvs draws cols)[literalIndex (allLiterals free fixed rvs draws cols) name]?
+        = some name ∧
+      ∀ other, literalIndex (allLiterals free fixed rvs draws cols) other
+        = literalIndex (allLiterals free fixed rvs draws cols) name → other = name := by
+  refine ⟨?_, fun other ho => idxOf_inj_of_mem _ other name h ho⟩
+  unfold literalIndex
+  rw [List.getElem?_eq_getElem (List.idxOf_lt_length_iff.mpr h), List.getElem_idxOf]
+
+/-- **a database column is numbered after all four other groups** — the group of the draw variables
+included: its index is the number of distinct free parameters + fixed parameters + random variables
++ draw variables + its position among the columns. -/
+theorem derive_index_variable (free fixed rvs draws cols : List String) (name : String)
+    (h1 : name ∉ free) (h2 : name ∉ fixed) (h3 : name ∉ rvs) (h4 : name ∉ draws) :
+    literalIndex (allLiterals free fixed rvs draws cols) name
+      = (sortNames free).length + (sortNames fixed).length + (sortNames rvs).length
+        + (sortNames draws).length + cols.idxOf name := by
+  unfold literalIndex allLiterals
+  have n1 := mt (mem_sortNames free name).1 h1
+  have n2 := mt (mem_sortNames fixed name).1 h2
+  have n3 := mt (mem_sortNames rvs name).1 h3
+  have n4 := mt (mem_sortNames draws name).1 h4
+  have n12 : name ∉ sortNames free ++ sortNames fixed := by simp [n1, n2]
+  have n123 : name ∉ sortNames free ++ sortNames fixed ++ sortNames rvs := by simp [n1, n2, n3]
+  have n1234 : name ∉ sortNames free ++ sortNames fixed ++ sortNames rvs ++ sortNames draws := by
+    simp [n1, n2, n3, n4]
+  rw [List.idxOf_append_of_notMem n1234]
+  simp only [List.length_append]
+
+/-- **`Derive(e, "x")` with the id manager's numbering is the partial derivative w.r.t. the data
+column named `x`**: the names of the parameters (`bname`), of the columns (`vname`) and of the draw
+variables of the formula being distinct literals of the numbering `all`. -/
+theorem derive_named_var_is_diff (all : List String) (bname vname : ℕ → String) (j : ℕ)
+    (hmem : vname j ∈ all) (hb : ∀ k, bname k ≠ vname j) (hv : ∀ k, vname k = vname j → k = j)
+    (e : IExpr) (hd : ∀ name ∈ drawsOf e, name ≠ vname j)
+    (betas row : List ℝ) (xi : String → ℝ) (hj : j < row.length) (t : ℝ) :
+    deriveNamed all bname vname (vname j) e = diffVar j e ∧
+    HasDerivAt (fun t => evalI betas (row.set j t) xi e)
+      (evalI betas (row.set j t) xi (deriveNamed all bname vname (vname j) e)) t := by
+  have heq : deriveNamed all bname vname (vname j) e = diffVar j e := by
+    unfold deriveNamed
+    exact diffLit_eq_diffVar _ (fun k => literalIndex all (vname k)) _ j e
+      (fun k h => hb k (idxOf_inj_of_mem all _ _ hmem h))
+      (fun k h => hv k (idxOf_inj_of_mem all _ _ hmem h))
+      (fun name hn h => hd name hn (idxOf_inj_of_mem all _ _ hmem h))
+  exact ⟨heq, heq ▸ diffVar_correct betas row xi j hj e t⟩
+
+/-- the same for the parameter named `bname i` (free or fixed) -/
+theorem derive_named_beta_is_diff (all : List String) (bname vname : ℕ → String) (i : ℕ)
+    (hmem : bname i ∈ all) (hv : ∀ k, vname k ≠ bname i) (hb : ∀ k, bname k = bname i → k = i)
+    (e : IExpr) (hd : ∀ name ∈ drawsOf e, name ≠ bname i)
+    (betas row : List ℝ) (xi : String → ℝ) (hi : i < betas.length) (t : ℝ) :
+    deriveNamed all bname vname (bname i) e = diffBeta i e ∧
+    HasDerivAt (fun t => evalI (betas.set i t) row xi e)
+      (evalI (betas.set i t) row xi (deriveNamed all bname vname (bname i) e)) t := by
+  have heq : deriveNamed all bname vname (bname i) e = diffBeta i e := by
+    unfold deriveNamed
+    exact diffLit_eq_diffBeta (fun k => literalIndex all (bname k)) _ _ i e
+      (fun k h => hv k (idxOf_inj_of_mem all _ _ hmem h))
+      (fun k h => hb k (idxOf_inj_of_mem all _ _ hmem h))
+      (fun name hn h => hd name hn (idxOf_inj_of_mem all _ _ hmem h))
+  exact ⟨heq, heq ▸ diffBeta_correct betas row xi i hi e t⟩
+
+/-- one free and one fixed parameter, one draw variable, three columns: column `Y` has index 4
+(1 + 1 + 0 + 1 + position 1), and `Derive(b·xi·X + Y·Y, "Y")` differentiates w.r.t. `Y` only -/
+example : literalIndex (allLiterals ["b2"] ["fx"] [] ["xi"] ["Z", "Y", "X"]) "Y" = 4 := by
+  decide +kernel
+example :
+    deriveNamed (allLiterals ["b2"] ["fx"] [] ["xi"] ["Z", "Y", "X"])
+      (fun i => if i = 0 then "b2" else "fx") (fun j => if j = 0 then "X" else if j = 1 then "Y" else "Z") "Y"
+      (.add (.mul (.mul (.beta 0) (.draw "xi")) (.var 0)) (.mul (.var 1) (.var 1)))
+    = diffVar 1 (.add (.mul (.mul (.beta 0) (.draw "xi")) (.var 0)) (.mul (.var 1) (.var 1))) :=
+  (derive_named_var_is_diff (allLiterals ["b2"] ["fx"] [] ["xi"] ["Z", "Y", "X"])
+    (fun i => if i = 0 then "b2" else "fx") (fun j => if j = 0 then "X" else if j = 1 then "Y" else "Z") 1
+    (by simp [allLiterals]) (by intro k; by_cases h : k = 0 <;> simp [h])
+    (by intro k; by_cases h : k = 0 <;> by_cases h' : k = 1 <;> simp [h, h']) _ (by simp [drawsOf])
+    [0.5, 0.25] [1, 2] (fun _ => 100) (by simp) 2).1
 
 /-! ### seeding -/
 
